@@ -60,7 +60,7 @@ func NewModule() (*Module, error) {
 	if err != nil {
 		return nil, err
 	}
-	files := map[string]string{"go.mod": goMod, "go.sum": string(sum), "vdriver/driver.go": driverSource}
+	files := map[string]string{"go.mod": strings.Replace(goMod, "=> /repo", "=> "+vt.Repo(), 1), "go.sum": string(sum), "vdriver/driver.go": driverSource}
 	if err := tg.WriteFiles(root, files); err != nil {
 		return nil, err
 	}
